@@ -69,7 +69,7 @@ def gen():
     o.append('Every change below was written by a fresh sub-agent that saw only the property text and a scratch worktree, '
              'compiles, passes the repository\'s own test suite and comes with a demonstration (kept in `seeded/<id>/`). '
              '"detected by" lists the quick-tier checks that exit 1 with a VIOLATION line when the patch is applied to `/repo` '
-             '(`tools/seedtest.sh`); "missed at first" marks changes that led to a strengthening of the check (see G.5).\n')
+             '(`tools/seedtest.sh`); checks that missed a change at first were strengthened until they caught it (the list is in 11.6).\n')
     o.append('| change | what was changed | needs | detected by (quick tier) |')
     o.append('|---|---|---|---|')
     for d in sorted(glob.glob(V + '/seeded/*/meta.json')):
